@@ -5,7 +5,12 @@ WORDS = ['pass', 'word', 'password', 'love', 'dragon', 'monkey', 'summer', 'wint
 WALKS = ['1qaz', 'qwer', '2wsx', 'zxcv', '1q2w3e', 'asdf', 'qazwsx', '!QAZ', '4rfv', 'poiu', 'йцук', 'qwerty12',
          # runs that pivot on a key present on both layouts (digits ; : " ? / ,): adjacent on one layout before it, on the other after it
          'kl;3', 'kl;345', 'q1"3', 'q1"32', 'ц23e', 'l;4r', '1qa;4']
-CONTEXT = [';p', ':p', '*0*', '#1', 'No.1', 'no.1', 'No.', 'i<3', 'I<3', '<3', 'Mr.', 'mr.', 'MS.', 'St.', 'Dr.', 'dr.']
+CONTEXT = [';p', ':p', '*0*', '#1', 'No.1', 'no.1', 'No.', 'i<3', 'I<3', '<3', 'Mr.', 'mr.', 'MS.', 'St.', 'Dr.', 'dr.',
+           # spellings that are NOT in the trainer's list although another capitalisation is: they are no context strings
+           'DR.', 'NO.1', ':P', 'ST.', 'nO.']
+CONTEXT_CASE_CORPUS = ['DR.WHO', 'NO.1DAD', 'FIRST.LAST', 'hey:P', 'Dr.WHO', 'no.1dad']
+# one password with two segments of a kind whose lengths are both new at that point of the list (a fresh list starts with them)
+FRESH_LENGTHS_CORPUS = ['sun12tiger345', 'ab!cdef!!', 'hello', 'sun', 'tiger', '12', '345', 'xy7', 'Sun12', 'TIGER345']
 YEARS = ['1999', '2000', '2012', '1987', '2024', '1900', '2099', '19', '20', '199', '20123', '12019']
 TLDS = ['.com', '.org', '.net', '.de', '.ru', '.uk', '.nl.se', '.mil']
 SYMBOLS = ['!', '@', '#', '$', '%', '^', '&', '*', ' ', '_', '-', '.', '/', ':', '€', '😀', '  ', '!!', '#1!', '??',
